@@ -62,8 +62,8 @@ RXV_SUBCOMMAND(c06) {
 	Rng rng(args.seed, 0xc06, args.shard);
 	const uint64_t nProgs = args.cases ? args.cases : 100;
 	const uint64_t nPlace = args.num("placements", 20);
-	ip::enableGuards(true);
-	ip::setGarbageSeed(args.seed + 17);
+	ip::enableGuards(args.num("guards", 1) != 0); // --guards 0: for runs under valgrind memcheck (it keeps its own shadow of every byte)
+	ip::setGarbageSeed(args.num("guards", 1) ? args.seed + 17 : 0);
 	ProgFixture fx(args.seed * 57 + args.shard);
 	for (const char* f : { "programs_run_interpreter", "programs_run_jit", "code_area_integrity_checks", "maxlen_light_v2_softaes", "dataset_offset_max_configs", "edge:scratchpad_first_line", "edge:scratchpad_last_line", "edge:dataset_last_item",
 		"edge:L1_last_qword", "edge:L2_last_qword", "edge:L3_last_qword", "edge:store_at_level_end", "placements_single", "placements_batch", "input_len_0", "mode_light", "mode_full", "secure_jit_runs" }) R.floorKey(f);
